@@ -959,6 +959,9 @@ fn c07(sim: &mut Sim, d: &Delivery) -> u64 {
     if d.faults.iter().any(|f| f == "heal" || f == "replay") {
         // recovery: once the template is there, the data decodes normally
         sim.stats.probe("recovery_delivery");
+        if d.faults.iter().any(|f| f == "replay") {
+            sim.stats.probe("same_data_bytes_redelivered_after_template");
+        }
         if w.has_tainted() {
             sim.stats.probe("recovery_not_judged_tainted");
         } else if !w.fully_known() {
